@@ -298,7 +298,7 @@ def main(argv=None):
         "coverage": {
             "obligations": obligations,
             "discharged": discharged,
-            "checker_cmd": "make -f Makefile.coq %s && coqc (props + per-run obligation files + cases_*.v) in build/%s" % (target, pid),
+            "checker_cmd": "coqc -Q coq SAV (dependency closure of %s; full .vo) then coqc of props, per-run obligation files and cases_*.v in build/%s" % (target, pid),
             "trusted_base": tb,
             "theorems": names,
             "per_run_obligations": run_obls,
